@@ -163,7 +163,12 @@ func bound() time.Duration {
 }
 
 // waitFor: poll cond until it holds; the budget costs nothing when the event arrives
-func waitFor(cond func() bool) bool {
+func waitFor(cond func() bool) bool { return waitEvery(2*time.Millisecond, cond) }
+
+// waitSlow: for conditions that are expensive to evaluate (a dump of all goroutine stacks)
+func waitSlow(cond func() bool) bool { return waitEvery(40*time.Millisecond, cond) }
+
+func waitEvery(step time.Duration, cond func() bool) bool {
 	deadline := time.Now().Add(bound())
 	for {
 		if cond() {
@@ -173,7 +178,7 @@ func waitFor(cond func() bool) bool {
 			atomic.AddInt32(&timeouts, 1)
 			return false
 		}
-		time.Sleep(2 * time.Millisecond)
+		time.Sleep(step)
 	}
 }
 
@@ -488,12 +493,12 @@ func runScenario(s *scenario, path string) *observation {
 		}) {
 			return stuck("StopConsume / idle task / Close")
 		}
-		cc.write(rtpPacket(0, seq, 0))
+		defer keepSending(cc, seq)()
 	case "stop": // the stream is closed on the server side (API stop): the pull must notice with the next packet
 		if !guarded(func() { stream.Close() }) {
 			return stuck("Stream.Close")
 		}
-		cc.write(rtpPacket(0, seq, 0))
+		defer keepSending(cc, seq)()
 	case "replace": // another publisher registers on the path: the pulled stream is retired
 		if !guarded(func() {
 			stream.StopConsume(cid)
@@ -502,7 +507,8 @@ func runScenario(s *scenario, path string) *observation {
 		}) {
 			return stuck("StopConsume / Regist")
 		}
-		cc.write(rtpPacket(0, seq, 0))
+		stopSending := keepSending(cc, seq)
+		defer stopSending()
 		ok := waitFor(func() bool { return atomic.LoadInt32(&cons.closed) == 1 && waitChNow(cc.peerGone) })
 		o.cclosed = atomic.LoadInt32(&cons.closed) == 1
 		o.closed = waitChNow(cc.peerGone)
@@ -530,6 +536,31 @@ func runScenario(s *scenario, path string) *observation {
 		o.afresh = pullAgain(s, cam, path, stream, o)
 	}
 	return o
+}
+
+// keepSending: the camera keeps sending packets on cc (one every 25 ms) until stop is called or the
+// connection is gone: a pull whose stream was closed on the server side must end although — and
+// because — packets keep arriving, not only when the camera falls silent
+func keepSending(cc *camConn, seq uint16) (stop func()) {
+	quit := make(chan struct{})
+	done := make(chan struct{})
+	go func() {
+		defer close(done)
+		for {
+			select {
+			case <-quit:
+				return
+			case <-cc.peerGone:
+				return
+			case <-time.After(25 * time.Millisecond):
+			}
+			if cc.write(rtpPacket(0, seq, 0)) != nil {
+				return
+			}
+			seq++
+		}
+	}()
+	return func() { close(quit); <-done }
 }
 
 // pullAgain: everything of the first pull has ended; a later request for the path must pull afresh:
@@ -643,7 +674,7 @@ func runDual(id int, pauseRegist bool, long time.Duration) (obs string, notes []
 			if time.Now().After(deadline) {
 				return false
 			}
-			time.Sleep(2 * time.Millisecond)
+			time.Sleep(10 * time.Millisecond)
 		}
 		return true
 	}
@@ -723,9 +754,9 @@ func runDual(id int, pauseRegist bool, long time.Duration) (obs string, notes []
 	}
 	winner := media.Get(path)
 	registered := winner == res[0] || winner == res[1]
-	// every camera connection gets a packet: the retired client's next packet must end its pull
+	// both cameras keep sending: the retired client's next packet must end its pull, the winner's goes on
 	for _, cc := range conns {
-		cc.write(rtpPacket(0, 1, 0))
+		defer keepSending(cc, 1)()
 	}
 	loserConn := live == 1 && until(func() bool { return waitChNow(conns[0].peerGone) != waitChNow(conns[1].peerGone) })
 	oneConn := live == 1 && until(func() bool { return stats.RtspConns.GetSample().Active == base+1 })
@@ -989,7 +1020,7 @@ func runBatches(scs []*scenario, idx []int, obs []*observation, tag string) {
 			continue // a leak is already pinned on concrete scenarios; later batches cannot be judged any more
 		}
 		okc := waitFor(func() bool { return stats.RtspConns.GetSample().Active == base })
-		okg := waitFor(func() bool { n, _ := pullGoroutines(); return n == 0 })
+		okg := waitSlow(func() bool { n, _ := pullGoroutines(); return n == 0 })
 		if !okc || !okg {
 			// pin the leak on single scenarios: re-run the batch one by one (stop at the third culprit)
 			culprits := 0
@@ -1012,13 +1043,13 @@ func runBatches(scs []*scenario, idx []int, obs []*observation, tag string) {
 
 // runAlone: one scenario with nothing else going on, with its own leak check; true if it leaks
 func runAlone(s *scenario, path string, obs []*observation, i int) bool {
-	waitFor(func() bool { n, _ := pullGoroutines(); return n == 0 }) // whatever ran before has wound down (if it ever does)
+	waitSlow(func() bool { n, _ := pullGoroutines(); return n == 0 }) // whatever ran before has wound down (if it ever does)
 	b0 := stats.RtspConns.GetSample().Active
 	g0, _ := pullGoroutines()
 	o := runScenarioGuarded(s, path)
 	c1 := waitFor(func() bool { return stats.RtspConns.GetSample().Active == b0 })
 	var sample string
-	g1 := waitFor(func() bool { n, sm := pullGoroutines(); sample = sm; return n <= g0 })
+	g1 := waitSlow(func() bool { n, sm := pullGoroutines(); sample = sm; return n <= g0 })
 	if !c1 {
 		o.notes = append(o.notes, "leak:conncount")
 	}
